@@ -529,11 +529,24 @@ def check_kl(ctx, case):
             np.round(g, 9).tolist(), np.round(gfd, 9).tolist(), err))
     # a training step as users write it: the parameter array is updated IN PLACE and handed to the same objects again; the answers must be
     # those of fresh objects given a fresh copy of the updated values
+    # (the step is halved until the updated parameters are still inside the model's domain, largest singular value of A(theta) <= SMAX + 0.05:
+    # a step that leaves it makes the library raise "covariance matrix does not correspond to a pure state", which is the documented
+    # rejection of an unphysical model and not a stale answer - false-alarm item 32)
+    step = 0.05 * g
+    for _ in range(12):
+        tc = theta - step
+        tc[0] += 0.01
+        if np.linalg.svd(own_A_theta(x * A, F, tc)[0], compute_uv=False)[0] <= SMAX + 0.05:
+            break
+        step = step / 2
+    else:
+        ctx.label("inplace_step_out_of_domain")
+        return None
     try:
         t = theta.copy()
         kl.evaluate(t)
         vg.mean_photons_by_mode(t)
-        t -= 0.05 * g
+        t -= step
         t[0] += 0.01
         v1, n1, g1 = float(kl.evaluate(t)), np.asarray(vg.mean_photons_by_mode(t), float), np.asarray(kl.grad(t), float)
         vg2 = param.VGBS(A, case["n_mean"], make_embedding(case), threshold=False)
